@@ -311,7 +311,7 @@ def coq_eval_cases(ctx, name, imports, case_terms, check_fn, per_file=400, extra
     (vm_compute) and return the indices for which it is false."""
     cdir = os.path.join(COQ, "cases")
     os.makedirs(cdir, exist_ok=True)
-    for mod in ("SrcGlue", "SrcRun"):
+    for mod in ("SrcGlue", "SrcRun", "SrcStructRun"):
         if re.search(r" %s\b" % mod, imports) and src_module(mod) != mod:
             imports = re.sub(r" %s\b" % mod, " %sStub" % mod, imports)
             stubbed = True
